@@ -1,7 +1,7 @@
 import Driver.L0Packet
 import Driver.L0Update
 import Driver.L0Server
-import Driver.Live
+import Driver.LiveMain
 /-! Line-protocol loop of the L0 differential driver. -/
 namespace Driver
 
